@@ -305,8 +305,12 @@ fn redecompose_case<S: Setup>(x: u64, wide: usize, narrow: usize) -> CaseResult 
 /// decompose_ext_to_base_coeffs(x) with mass moved between coefficients.
 /// `consume`: 0 = the coefficients feed ALU rows; 1 = they are re-packed in rotated order by a second
 /// recomposition (what the challenger does at a misaligned rate offset), whose result feeds an ALU row.
-fn coeff_case<S: Setup>(rng: &mut rand::rngs::SmallRng, family: u32, recompose_npo: bool, consume: u32, idx: usize) -> CaseResult {
-    let key = format!("{}:coeffs:f{family}:npo{recompose_npo}:use{consume}:{idx}", S::NAME);
+/// `route` 1: the decomposition is emitted with the builder's "skip select provenance" flag on
+/// (the mode `recursion/src/pcs/mmcs.rs` uses for extension-opened arity-4 leaves); only with the
+/// recompose table enabled.
+fn coeff_case<S: Setup>(rng: &mut rand::rngs::SmallRng, family: u32, recompose_npo: bool, consume: u32, route: u32, idx: usize) -> CaseResult {
+    let recompose_npo = recompose_npo || route == 1;
+    let key = format!("{}:coeffs:f{family}:npo{recompose_npo}:use{consume}:route{route}:{idx}", S::NAME);
     if S::D == 1 {
         return CaseResult::held(key, false);
     }
@@ -316,9 +320,14 @@ fn coeff_case<S: Setup>(rng: &mut rand::rngs::SmallRng, family: u32, recompose_n
         b.enable_recompose::<S::B>(p3_circuit::ops::generate_recompose_trace::<S::B, S::E>);
     }
     let xin = b.public_input();
+    let route = if recompose { route } else { 0 };
+    let prev = if route == 1 { b.set_decompose_skip_select_provenance(true) } else { false };
     let Ok(cs) = b.decompose_ext_to_base_coeffs::<S::B>(xin) else {
         return CaseResult::inconclusive(key, "decompose failed");
     };
+    if route == 1 {
+        b.set_decompose_skip_select_provenance(prev);
+    }
     let s = if consume == 1 {
         let rot: Vec<_> = (0..S::D).map(|i| cs[(i + 1) % S::D]).collect();
         let Ok(y) = b.recompose_base_coeffs_to_ext::<S::B>(&rot) else {
@@ -393,11 +402,11 @@ fn coeff_case<S: Setup>(rng: &mut rand::rngs::SmallRng, family: u32, recompose_n
     match outcome {
         Outcome::Accepted => CaseResult::violated(
             key,
-            format!("noncanonical-accepted/ext-coeffs/{}", if recompose { "recompose-table" } else { "alu-recomposition" }),
-            json!({"setup": S::NAME, "gadget": "decompose_ext_to_base_coeffs", "x": xc, "family": family, "recompose_npo": recompose, "consume": consume}),
+            format!("noncanonical-accepted/ext-coeffs/{}{}", if recompose { "recompose-table" } else { "alu-recomposition" }, if route == 1 { "/skip-select-provenance" } else { "" }),
+            json!({"setup": S::NAME, "gadget": "decompose_ext_to_base_coeffs", "x": xc, "family": family, "recompose_npo": recompose, "consume": consume, "route": route}),
         ),
         Outcome::NoAlternative => CaseResult::inconclusive(key, "hint op not found"),
-        Outcome::RunRejected(_) => CaseResult::held(key, true).count(format!("coeffs/rejected-by-run/npo={recompose}/use={consume}"), 1),
+        Outcome::RunRejected(_) => CaseResult::held(key, true).count(format!("coeffs/rejected-by-run/npo={recompose}/use={consume}"), 1).count(format!("coeffs/route{route}/rejected"), 1),
         Outcome::ProverRejected(_) => CaseResult::held(key, true).count(format!("coeffs/rejected-by-prover/use={consume}"), 1),
         Outcome::VerifierRejected(_) => CaseResult::held(key, true).count(format!("coeffs/rejected-by-verifier/use={consume}"), 1),
     }
@@ -451,7 +460,8 @@ fn case<S: Setup>(seed: u64, idx: usize, _tier: Tier) -> Vec<CaseResult> {
         let fam = rng.random_range(0..3u32);
         let npo = rng.random_range(0..2u32) == 0;
         let consume = rng.random_range(0..2u32);
-        out.push(coeff_case::<S>(&mut rng, fam, npo, consume, idx));
+        let route = u32::from(idx % 3 == 2);
+        out.push(coeff_case::<S>(&mut rng, fam, npo, consume, route, idx));
     }
     out
 }
@@ -474,7 +484,7 @@ fn replay(d: &Value) -> Vec<CaseResult> {
             )]
         } else {
             let mut rng = case_rng(0, "c12-replay", 0);
-            vec![coeff_case::<S>(&mut rng, d["family"].as_u64().unwrap() as u32, d["recompose_npo"].as_bool().unwrap(), d["consume"].as_u64().unwrap_or(0) as u32, 0)]
+            vec![coeff_case::<S>(&mut rng, d["family"].as_u64().unwrap() as u32, d["recompose_npo"].as_bool().unwrap(), d["consume"].as_u64().unwrap_or(0) as u32, d["route"].as_u64().unwrap_or(0) as u32, 0)]
         }
     }
     let name = d["setup"].as_str().unwrap().to_string();
